@@ -9,6 +9,10 @@
     the deferring object, assign on the delegate, swap the delegate, delete the local value, invalid assignment; four prefix
     styles; DelegatesTo and PrototypedFrom; chains of deferral of depth 2; delegation cycles end with DelegationError.
 """
+NEED_AST = True
+
+NEED_AST = True
+
 import z3
 
 from vt import symx
@@ -415,6 +419,80 @@ def listener_name_harness(ex):
     return {"ok": True}
 
 
+def c_name_harness(ex):
+    """the compiled side of the same rule, interpreted from the C source on SYMBOLIC strings: _trait_delegate installs the name
+    function of the prefix style, and that function maps the deferring attribute's name to the documented target name
+    (0: the name itself, 1: the explicit name, 2: prefix + name, 3: the class's __prefix__ + name) for every name and prefix"""
+    from vt import cenv
+    from vt.csym import NULL
+    style = ex.choice("prefix_type", 4)
+    name, prefix = ex.str("name"), ex.str("prefix")
+    modify = ex.flag("modify")
+    if ex.sym:
+        ident = z3.Plus(z3.Union(z3.Range("a", "z"), z3.Re("_")))
+        for v in (name, prefix):
+            ex.assume(z3.Length(v.e) <= 8)
+            ex.assume(z3.InRe(v.e, ident))        # attribute names (the concrete replay goes through getattr)
+    else:
+        import re
+        if not (re.fullmatch("[a-z_]{1,8}", name) and re.fullmatch("[a-z_]{1,8}", prefix)):
+            raise symx.PathAbort("outside the stated bound")
+        # the real build: a CTrait made by the compiled delegate() and read through on a real object
+        from traits.ctrait import CTrait
+        bare = style == 3 and ex.flag("class_without_a_prefix")
+        want = {0: name, 1: prefix, 2: prefix + name, 3: name if bare else "cp_" + name}[style]
+        ct = CTrait(3)
+        ct.delegate("deleg", prefix, style, modify)
+
+        class T(HasTraits):
+            pass
+
+        class OwnerC(HasTraits):
+            deleg = Instance(T, ())
+        if not bare:
+            OwnerC.__prefix__ = "cp_"
+        if style == 3 and not bare and ex.flag("prefix_inherited"):
+            OwnerC = type("OwnerCSub", (OwnerC,), {})
+        o = OwnerC()
+        setattr(o.deleg, want, 41)
+        o.add_trait(name, ct)
+        try:
+            got = getattr(o, name)
+        except Exception as e:
+            got = type(e).__name__
+        ex.check(got == 41, "the target attribute name is the documented function of the prefix style, the prefix and the deferring name")
+        return {"style": style}
+    it = cenv.new_interp()
+    trait = cenv.new_trait(handler=NULL)
+    r = it.call("_trait_delegate", [trait, ("deleg", prefix, style, modify)])
+    ex.check(r is not NULL, "_trait_delegate accepts every documented prefix style")
+    if r is NULL:
+        return {"style": style}
+
+    class Owner(HasTraits):
+        __prefix__ = "cp_"
+
+    class Bare(HasTraits):
+        pass
+
+    bare = style == 3 and ex.flag("class_without_a_prefix")
+    if style == 3 and not bare and ex.flag("prefix_inherited"):
+        Owner = type("OwnerSub", (Owner,), {})          # declares nothing itself
+    obj = cenv.hastraits_struct(it, (Bare if bare else Owner)())
+    got = it.call(trait.delegate_attr_name, [trait, obj, name])
+    ex.check(got is not NULL, "the name function returns a name")
+    if got is NULL:
+        return {"style": style}
+    want = {0: name, 1: prefix, 2: prefix + name, 3: name if bare else "cp_" + name}[style]
+    if ex.sym:
+        ge = got.e if isinstance(got, SymStr) else z3.StringVal(got)
+        we = want.e if isinstance(want, SymStr) else z3.StringVal(want)
+        ex.check(ge == we, "the target attribute name is the documented function of the prefix style, the prefix and the deferring name")
+    else:
+        ex.check(got == want, "the target attribute name is the documented function of the prefix style, the prefix and the deferring name")
+    return {"style": style}
+
+
 def lazy_chain_harness(ex):
     """chain of deferral whose intermediate delegates are *defaults that were never materialised* (not in __dict__)"""
     class T(HasTraits):
@@ -478,6 +556,8 @@ def cycle_harness(ex):
 
 
 def obligations(tier, build):
+    from vt import cenv
+    cenv.load_program(build)
     obs = [Obligation("classify/prefix", classify_harness, bounds={"prefix": "any string of length <= 6 (z3 String)"},
                       leverage="the prefix string", query_timeout_ms=30000),
            Obligation("listener-name-arithmetic", listener_name_harness,
@@ -487,6 +567,9 @@ def obligations(tier, build):
                              "the per-name listener table of the instance dictionary records (key, value) without hashing the symbolic name",
                              "stub object: on_trait_change / trait_property_changed record their arguments"],
                       leverage="the three strings (z3 String): len(), slicing and concatenation in the real functions", query_timeout_ms=60000),
+           Obligation("c-name-functions", c_name_harness, kind="csym",
+                      bounds={"deferring name, prefix": "any strings of length <= 8 (z3 String)", "prefix style": "0-3", "class": "with / without __prefix__"},
+                      leverage="both strings (z3 String) through the interpreted _trait_delegate / delegate_attr_name_* functions", query_timeout_ms=60000),
            Obligation("lazy-chain", lazy_chain_harness, leverage="choice feasibility only"),
            Obligation("cycle", cycle_harness, leverage="none",
                       crash_is_violation="access through a delegation cycle terminates with a Python exception, not a crash")]
